@@ -117,7 +117,9 @@ func newRouter(config RouterConfig, logger watermill.LoggerAdapter) *Router {
 		runningHandlersWg:     &sync.WaitGroup{},
 		runningHandlersWgLock: &sync.Mutex{},
 
-		handlerAdded: make(chan struct{}),
+		// buffered: the notification sent by AddHandler must not be lost when the goroutine of
+		// watchAllHandlersStopped has not reached its receive yet
+		handlerAdded: make(chan struct{}, 1),
 
 		middlewaresLock: &sync.RWMutex{},
 		handlersLock:    &sync.RWMutex{},
